@@ -38,6 +38,7 @@ Sane == Complete(st) =>
      [] OTHER -> TRUE
 \* ---- noise added to an aggregate share: one independent discrete-Laplace draw per coordinate with
 \*      scale = sensitivity / epsilon, added as an integer (reduced into the field by the caller) ----
+B == INSTANCE BigNat
 Sensitivity(t) ==
   CASE t.kind = "SumVec" -> (2 ^ t.bits - 1) * t.len
     [] t.kind = "Histogram" -> 2
@@ -46,12 +47,18 @@ NoiseCases == IF "C15_NOISE" \in DOMAIN IOEnv /\ IOEnv.C15_NOISE # "" THEN ndJso
 \* NoiseCases[i] = [t (type), en, ed (epsilon = en/ed), agg (small integers), tapes (one per coordinate)]
 InitNoise == nz \in 1..Len(NoiseCases) /\ st = [i |-> 0, tape |-> <<>>, bits |-> <<>>]
 NextNoise == UNCHANGED <<nz, st>>
+\* Bounds and budgets beyond the model's integers (max_value = 2^63, 2^127, 2^127 + 1, ...): the case carries them as base-2^12
+\* limbs together with a candidate scale sa/sb; the candidate is accepted iff  sensitivity * ed * sb = sa * en  over the naturals
+\* (BigNat), i.e. iff it IS sensitivity / epsilon.
+BigCase(c) == "maxl" \in DOMAIN c.t
+BigScaleOK(c) == B!BigEq(B!BigMul(B!BigMul(<<2>>, c.t.maxl), B!BigMul(c.edl, B!FromInt(c.sb))), B!BigMul(B!FromInt(c.sa), c.enl))
 NoiseEmit ==
   nz > 0 =>
   LET c == NoiseCases[nz]
-      scale == Q(Sensitivity(c.t) * c.ed, c.en)
+      scale == IF BigCase(c) THEN Q(c.sa, c.sb) ELSE Q(Sensitivity(c.t) * c.ed, c.en)
       draws == [i \in 1..Len(c.agg) |-> Laplace(scale, c.tapes[i])]
-  IN /\ \A i \in 1..Len(c.agg) : draws[i].ok /\ draws[i].rest = <<>>
-     /\ PrintT(<<"REPLAY", ToJson([t |-> c.t, en |-> c.en, ed |-> c.ed, agg |-> c.agg, tapes |-> c.tapes, scale |-> scale,
+  IN /\ (BigCase(c) => BigScaleOK(c))
+     /\ \A i \in 1..Len(c.agg) : draws[i].ok /\ draws[i].rest = <<>>
+     /\ PrintT(<<"REPLAY", ToJson([t |-> c.t, en |-> c.en, ed |-> c.ed, big |-> (IF BigCase(c) THEN [en_s |-> c.en_s, ed_s |-> c.ed_s] ELSE [en_s |-> "", ed_s |-> ""]), agg |-> c.agg, tapes |-> c.tapes, scale |-> scale,
                                    expect |-> [i \in 1..Len(c.agg) |-> c.agg[i] + draws[i].v]])>>)
 =============================================================================
